@@ -300,3 +300,78 @@ func minInt(a, b int) int {
 	}
 	return b
 }
+
+// tlb.parsetag <hex> → ok <len> <val> | err : the exported ParseTag on a constructor / Magic tag string
+func exParseTag(a []string) string {
+	t, err := tlb.ParseTag(string(h.MustUnHex(a[0])))
+	if err != nil {
+		return "err"
+	}
+	return fmt.Sprintf("ok %d %d", t.Len, t.Val)
+}
+
+// tlb.fieldtag <hex> → ok p|r|m|mr | err : the unexported parseTag (through the verif hook) on a field tag string
+func exFieldTag(a []string) string {
+	isRef, isMaybe, isMaybeRef, _, err := tlb.VerifParseTag(string(h.MustUnHex(a[0])))
+	switch {
+	case err != nil:
+		return "err"
+	case isMaybeRef:
+		return "ok mr"
+	case isMaybe:
+		return "ok m"
+	case isRef:
+		return "ok r"
+	}
+	return "ok p"
+}
+
+// genTags: every tag string of the code base (collected by the X1 walk) and damaged variants of each
+func genTags(g *h.G) {
+	emit := func(s string) {
+		g.Emit("tlb.parsetag", h.Hex([]byte(s)))
+		g.Emit("tlb.fieldtag", h.Hex([]byte(s)))
+	}
+	all := map[string]bool{}
+	for s := range tlbU.FieldTags {
+		all[s] = true
+	}
+	for s := range tlbU.SumTags {
+		all[s] = true
+	}
+	keys := make([]string, 0, len(all))
+	for s := range all {
+		keys = append(keys, s)
+	}
+	sort.Strings(keys)
+	alphabet := "$#_^01af9gz maybebitsbytes"
+	for _, s := range keys {
+		emit(s)
+		g.Count("tag_strings_of_the_code_base")
+		for k := 0; k < 3; k++ {
+			b := []byte(s)
+			switch g.Rng.Intn(4) {
+			case 0:
+				if len(b) > 0 {
+					b = b[:g.Rng.Intn(len(b))]
+				}
+			case 1:
+				if len(b) > 0 {
+					b[g.Rng.Intn(len(b))] = alphabet[g.Rng.Intn(len(alphabet))]
+				}
+			case 2:
+				i := g.Rng.Intn(len(b) + 1)
+				b = append(b[:i:i], append([]byte{alphabet[g.Rng.Intn(len(alphabet))]}, b[i:]...)...)
+			default:
+				b = append(b, alphabet[g.Rng.Intn(len(alphabet))])
+			}
+			emit(string(b))
+			g.Count("tag_strings_damaged")
+		}
+	}
+	for _, s := range []string{"", "$", "#", "$_", "#_", "x$_", "maybe", "maybe^", "^", "^ x", "maybe^maybe", "100bits",
+		"32bytes", "$2", "#g", "#ffffffff", "#100000000", "$11111111111111111111111111111111", "$111111111111111111111111111111111",
+		"a$1#2", "a#1$0", "#0201_", "$000000100000000", "!merkle_proof#03", "#FF", "#fF"} {
+		emit(s)
+	}
+}
